@@ -966,7 +966,10 @@ async def fuzz_sftp_client(rng, full):
     doc = (asyncssh.SFTPError,)
     inits = [b'\x02' + u32(3), b'\x02' + u32(3) + sstr(b'limits@openssh.com') + sstr(b'1'),
              b'\x02' + u32(3) + sstr(b'statvfs@openssh.com') + sstr(b'2') + sstr(b'x'), b'\x02' + u32(2 ** 32 - 1),
-             b'\x02', b'\x01' + u32(3), b'\x02' + u32(3) + u32(2 ** 32 - 1), b'', b'\x02' + u32(0)]
+             b'\x02', b'\x01' + u32(3), b'\x02' + u32(3) + u32(2 ** 32 - 1), b'', b'\x02' + u32(0),
+             b'\x02' + u32(3) + sstr(b'supported') + sstr(b''), b'\x02' + u32(3) + sstr(b'supported2') + sstr(b'\0' * 5),
+             b'\x02' + u32(3) + sstr(b'vendor-id') + sstr(b'\0\0\0\1v'), b'\x02' + u32(3) + sstr(b'acl-supported') + sstr(b'\0'),
+             b'\x02' + u32(3) + sstr(b'vendor-id') + sstr(sstr(b'\xff') + sstr(b'p') + sstr(b'v') + u64(1))]
     combos = [(cn, rn) for cn in calls for rn in replies]
     if not full:
         combos = rng.sample(combos, 90)
